@@ -181,7 +181,8 @@ def snap_literal(case, heap, obs, collect_flags):
     lim = case["limits"]
     objs = []
     for rec in heap.objs:
-        objs.append("{| o_ty := %s; o_text := %s; o_kind := %s |}" % (L.s(rec["ty"]), L.s(rec["text"]), lit_kind(rec, heap)))
+        objs.append("{| o_ty := %s; o_text := %s; o_kind := %s; o_sized := %s |}" % (L.s(rec["ty"]), L.s("" if rec.get("sized") else rec["text"]), lit_kind(rec, heap),
+                                                                                   L.b(rec.get("sized", False))))
     total_children = sum(len(r["children"]) for r in heap.objs)
     fuel = min(5000, (total_children + len(case["frames"]) + len(case["watches"]) + 2))
     frames_in = L.lst("{| fr_locals := %s; fr_collect := %s |}" % (L.nat(heap.of(f["locals"])), L.b(c))
